@@ -50,6 +50,9 @@ var datasets = [][][]row{
 // headN is not a multiple of the vector size: Head stops inside a vector.
 const headN = 3
 
+// genOffset: see fProg.
+const genOffset = 1000
+
 // ---- call counts -----------------------------------------------------------------
 
 var (
@@ -98,7 +101,11 @@ var rowType = slicetype.New(reflect.TypeOf(""), reflect.TypeOf(0))
 //
 // failShard/failAfter: the source of shard failShard returns an error (every time it is
 // asked) once it has emitted failAfter rows -- a failed upstream computation; -1 = never.
-var fProg = bigslice.Func(func(tag int, shape, op, prefix string, data, failShard, failAfter int) bigslice.Slice {
+//
+// gen is the "generation" of the input: the source adds gen*genOffset to every value,
+// so that rows computed now can be told from rows found in files written by a run of
+// another generation (the keys, and with them the shards, stay the same).
+var fProg = bigslice.Func(func(tag int, shape, op, prefix string, data, failShard, failAfter, gen int) bigslice.Slice {
 	ctx := context.Background()
 	src := bigslice.ReaderFunc(nShard, func(shard int, pos *int, ks []string, vs []int) (int, error) {
 		count(tag, fmt.Sprintf("src/%d", shard))
@@ -115,7 +122,7 @@ var fProg = bigslice.Func(func(tag int, shape, op, prefix string, data, failShar
 		}
 		n := 0
 		for n < len(ks) && *pos < len(rows) {
-			ks[n], vs[n] = rows[*pos].K, rows[*pos].V
+			ks[n], vs[n] = rows[*pos].K, rows[*pos].V+gen*genOffset
 			n++
 			*pos++
 		}
@@ -123,7 +130,7 @@ var fProg = bigslice.Func(func(tag int, shape, op, prefix string, data, failShar
 	})
 	map1 := func(s bigslice.Slice) bigslice.Slice {
 		return bigslice.Map(s, func(k string, v int) (string, int) {
-			count(tag, "map1/"+strconv.Itoa(v))
+			count(tag, "map1/"+strconv.Itoa(v%genOffset)) // by the value of generation 0
 			return k, v * 10
 		})
 	}
@@ -326,6 +333,92 @@ func cachedShardRows(p prog, keyShard map[string]int) [][]string {
 		}
 	}
 	return out
+}
+
+// ---- generations -----------------------------------------------------------------
+//
+// The same model, for inputs of generation gen and for a cached slice whose shards come
+// from different generations (a shard read from an old file vs. a shard computed now).
+
+func genData(d, gen int) [][]row {
+	out := make([][]row, nShard)
+	for s, rows := range datasets[d] {
+		for _, r := range rows {
+			out[s] = append(out[s], row{r.K, r.V + gen*genOffset})
+		}
+	}
+	return out
+}
+
+func map1Of(data [][]row) [][]row {
+	out := make([][]row, nShard)
+	for s, rows := range data {
+		for _, r := range rows {
+			out[s] = append(out[s], row{r.K, r.V * 10})
+		}
+	}
+	return out
+}
+
+// cachedSliceRows: the rows of every shard of the CACHED slice for inputs of generation
+// gen (post-shuffle: keys placed by keyShard; with a nil table everything lands in
+// shard 0, which is good enough where only the union matters).
+func cachedSliceRows(p prog, keyShard map[string]int, gen int) [][]row {
+	data := genData(p.Data, gen)
+	switch p.Shape {
+	case "head":
+		return data
+	case "postsh":
+		out := make([][]row, nShard)
+		for _, r := range refReduce(map1Of(data)) {
+			s := keyShard[r.K]
+			out[s] = append(out[s], row{r.K, r.V + 3})
+		}
+		return out
+	}
+	return map1Of(data)
+}
+
+// downstream applies what the program does AFTER the cache operator to the shards of
+// the cached slice.
+func downstream(p prog, shards [][]row) []string {
+	switch p.Shape {
+	case "head", "postsh", "rc-head":
+		return strs(flatten(shards))
+	case "mid", "rc-map":
+		var out []row
+		for _, r := range flatten(shards) {
+			out = append(out, row{r.K + "!", r.V + 1})
+		}
+		return strs(out)
+	case "presh", "rc-reduce":
+		return strs(refReduce(shards))
+	case "underhead", "rc-underhead":
+		var out []row
+		for _, rows := range shards {
+			if len(rows) > headN {
+				rows = rows[:headN]
+			}
+			out = append(out, rows...)
+		}
+		return strs(out)
+	}
+	panic("shape")
+}
+
+// expectedMixed: the rows of the program when shard s of the cached slice is of
+// generation gens[s].
+func expectedMixed(p prog, keyShard map[string]int, gens []int) []string {
+	shards := make([][]row, nShard)
+	byGen := map[int][][]row{}
+	for s := 0; s < nShard; s++ {
+		g := gens[s]
+		if byGen[g] == nil {
+			byGen[g] = cachedSliceRows(p, keyShard, g)
+		}
+		shards[s] = byGen[g][s]
+	}
+	return downstream(p, shards)
 }
 
 // srcShardOfValue maps a source value to its source shard.
